@@ -315,6 +315,102 @@ func childC18(args []string) int {
 		}
 	}
 
+	// ---- values with the top bit set: sums of IncCounterBy amounts, gauges and observations are uint64
+	announceCase("wide values")
+	{
+		cid := metrics.AddCounter("verif_c18_wide", nil)
+		var want uint64
+		for i := 0; i < 3; i++ {
+			metrics.IncCounterBy(cid, 1<<62)
+			want += 1 << 62
+		}
+		for i := 0; i < 5; i++ {
+			metrics.IncCounter(cid)
+			want++
+		}
+		gid := metrics.AddIntGauge("verif_c18_widegauge", nil)
+		gwant := uint64(1<<63 + 17)
+		metrics.SetIntGauge(gid, gwant)
+		hname := "verif_c18_widehist"
+		hid := metrics.AddHistogram(hname, false, nil)
+		obs := []uint64{77, 1 << 63, 1<<63 + 9, 1, 1<<64 - 1}
+		for _, v := range obs {
+			metrics.ObserveHist(hid, v)
+		}
+		lines := scrapeFiltered("verif_c18_wide")
+		var cgot, ggot string
+		for _, l := range lines {
+			if l.Name == "verif_c18_wide" && l.Tags["type"] == "counter" {
+				cgot = l.Val
+			}
+			if l.Name == "verif_c18_widegauge" {
+				ggot = l.Val
+			}
+		}
+		run.Eval(3)
+		run.Count("counter_reads_checked", 1)
+		run.Count("histogram_reads_checked", 1)
+		run.Distinct("counter|sum above 2^63")
+		run.Distinct("gauge|value above 2^63")
+		run.Distinct("hist|observations above 2^63")
+		if cgot != strconv.FormatUint(want, 10) {
+			run.Violation("metrics|counter|a sum of increments with the top bit set is not reported as that sum", map[string]interface{}{"want": strconv.FormatUint(want, 10), "reported": cgot})
+		}
+		if ggot != strconv.FormatUint(gwant, 10) {
+			run.Violation("metrics|gauge|a value with the top bit set is not reported as set", map[string]interface{}{"want": strconv.FormatUint(gwant, 10), "reported": ggot})
+		}
+		raw := map[string]string{}
+		for _, l := range lines {
+			if l.Name == "hist_"+hname && l.Tags["statistic"] != "average" {
+				raw[l.Tags["statistic"]] = l.Val
+			}
+		}
+		if d := checkPeriod(readHist(lines, hname), obs); d != "" {
+			run.Violation("metrics|histogram|observations with the top bit set|"+d, map[string]interface{}{"observations": []string{"77", "2^63", "2^63+9", "1", "2^64-1"}, "reported": raw})
+		}
+	}
+
+	// ---- a sampled histogram (every few observations kept): what is reported must still be observations of the period
+	announceCase("sampled histogram")
+	{
+		hname := "verif_c18_sampled"
+		hid := metrics.AddHistogram(hname, true, nil)
+		for period := 0; period < 4; period++ {
+			n := 400 + 37*period
+			obs := make([]uint64, n)
+			set := map[uint64]bool{}
+			for i := range obs {
+				obs[i] = uint64(50000*(period+1) + (i*7919)%1000)
+				set[obs[i]] = true
+				metrics.ObserveHist(hid, obs[i])
+			}
+			h := readHist(scrapeFiltered(hname), hname)
+			run.Eval(1)
+			run.Count("histogram_reads_checked", 1)
+			run.Count("observations", int64(n))
+			run.Distinct(fmt.Sprintf("hist|sampled|%d", period))
+			bad := ""
+			if h.Count != uint64(n) {
+				bad = "count differs from the number of observations"
+			} else {
+				names := make([]string, 0, len(h.Pct))
+				for k := range h.Pct {
+					names = append(names, k)
+				}
+				sort.Strings(names)
+				for _, k := range names {
+					if !set[h.Pct[k]] {
+						bad = "a percentile is not one of the period's observations"
+						break
+					}
+				}
+			}
+			if bad != "" {
+				run.Violation("metrics|histogram|sampled|"+bad, map[string]interface{}{"period": period, "n": n, "range": []int{50000 * (period + 1), 50000*(period+1) + 999}, "reported": h})
+			}
+		}
+	}
+
 	// ---- counters
 	announceCase("counters")
 	{
